@@ -1180,7 +1180,7 @@ func (c corr) String() string {
 	switch c.kind {
 	case "field", "altcontent":
 		return fmt.Sprintf("%d:%s.%d.%d", c.pos, c.kind, c.a, c.b)
-	case "wrongshare", "idx", "crossval":
+	case "wrongshare", "idx", "crossval", "fork":
 		return fmt.Sprintf("%d:%s.%d", c.pos, c.kind, c.a)
 	}
 	return fmt.Sprintf("%d:%s", c.pos, c.kind)
@@ -1465,6 +1465,7 @@ func (e *episode) execAgg(run *hx.Run, o aggOp) {
 			idx := sh
 			signer := sh
 			signVal := vs.val
+			signFork := int64(-1)
 			var posCorrs []corr
 			for _, c := range vs.corrs {
 				if c.pos == pos {
@@ -1477,6 +1478,8 @@ func (e *episode) execAgg(run *hx.Run, o aggOp) {
 					s = mk(1)
 				case "wrongshare":
 					signer = int(c.a)
+				case "fork":
+					signFork = int64(c.a) // signed under the fork version of ANOTHER epoch (a peer that has not crossed a fork boundary)
 				case "crossval":
 					signVal = int(c.a) // the same share index of ANOTHER validator of the call signs (errors of two such swaps cancel in a sum)
 				case "validx":
@@ -1499,7 +1502,7 @@ func (e *episode) execAgg(run *hx.Run, o aggOp) {
 			if kind == kRaw {
 				signV = view{dom: domAttester, epoch: up(vs.epoch), root: &[32]byte{byte(vi), 7}}
 			}
-			if sig, ok := signView(signV, signPlan{secret: cl.secretFor(signVal, signer), dom: -1, forkEpoch: -1}); ok {
+			if sig, ok := signView(signV, signPlan{secret: cl.secretFor(signVal, signer), dom: -1, forkEpoch: signFork}); ok {
 				s.setSig(sig)
 			}
 			for _, c := range posCorrs {
@@ -1904,6 +1907,34 @@ func (g *gen) mkCorr(kind string, pos int, shares []int) corr {
 	return c
 }
 
+// forkBoundary: the SAME content (same op seed) aggregated by the same Aggregator / verifier on both sides of a
+// fork boundary - valid in the last epoch of the old fork, then in the first epoch of the new fork with every
+// partial signed under the OLD fork version (must be refused: nothing published), then honestly under the new one
+// (must be published). Objects whose message root does not contain their epoch (sync committee messages: the
+// block root) have the same message root in all three calls.
+func (g *gen) forkBoundary(kind int) {
+	if kind == kRaw || g.left <= 0 {
+		return
+	}
+	cbs := combosOf(kind)
+	cb := cbs[g.r.Intn(len(cbs))]
+	b := forkEpochs[1+g.r.Intn(len(forkEpochs)-1)]
+	seed, nsub, val := g.seed(), 1+g.r.Intn(2), g.r.Intn(g.cfg.m)
+	shares := g.randSubset(g.cfg.t)
+	mk := func(epoch uint64, stale bool) valSpec {
+		v := valSpec{val: val, kind: kind, ver: cb.ver, blinded: cb.blinded, epoch: epoch, shares: shares, keying: "own"}
+		if stale {
+			for pos := range shares {
+				v.corrs = append(v.corrs, corr{pos: pos, kind: "fork", a: b - 1})
+			}
+		}
+		return v
+	}
+	g.agg(aggOp{nsub: nsub, fail: -1, seed: seed, vals: []valSpec{mk(b-1, false)}})
+	g.agg(aggOp{nsub: nsub, fail: -1, seed: seed, vals: []valSpec{mk(b, true)}})
+	g.agg(aggOp{nsub: nsub, fail: -1, seed: seed, vals: []valSpec{mk(b, false)}})
+}
+
 func (g *gen) systematic(kind int) {
 	for _, cb := range combosOf(kind) {
 		if g.left <= 0 {
@@ -2104,6 +2135,13 @@ func generate(run *hx.Run, a hx.Args) {
 		g.capF = 24
 	}
 	g.newEpisode()
+	// fork-boundary triples for every kind first (three calls each): a small budget must see them all
+	for k := 0; k < numKinds; k++ {
+		if k != kBProp {
+			g.forkBoundary(k)
+		}
+	}
+	g.newEpisode()
 	for _, k := range g.r.Perm(numKinds) {
 		if g.left <= 0 {
 			break
@@ -2112,6 +2150,7 @@ func generate(run *hx.Run, a hx.Args) {
 			continue // the aggregator sees blinded proposals as VersionedSignedProposal{Blinded: true}
 		}
 		g.systematic(k)
+		g.forkBoundary(k)
 		g.newEpisode()
 	}
 	for g.left > 0 {
